@@ -13,6 +13,7 @@ def run(ctx):
     dynalloc.rule_monotone_allocation(ctx)
     dyn.rule_dummy_delegation(ctx)
     dyncnf.rule_dynamic_clause_templates(ctx)
+    dyncnf.rule_dynamic_variable_registration(ctx)
     ctx.assume("rustc's MIR and resolved callees; Vec/Cell/Rc/RefCell std semantics")
     return (
         "F5 on the event-log scans (update variants are barriers), F2 on logging/replay/cursor, allocator-discipline analysis of the SAT variables "
